@@ -1,4 +1,5 @@
 import AlgopyVerif.Proofs.Drivers
+import AlgopyVerif.Proofs.DriversSeed
 /-!
 # C09 — forward-mode derivative drivers are exact
 
@@ -10,8 +11,8 @@ direction `v` is `c₂(v) = ½ vᵀ H v` (`quad H v`).  Extraction algebra, for 
 * `hess_vec_entry`: `−c₂(e_n) + c₂(v + e_n) − c₂(v) = (H v)_n` — `extract_hess_vec`.
 
 Seed tables (`init_hessian`'s triangular layout `a(n) = n(n+1)/2`, `k(n,m) = (n+1)(n+2)/2 − m − 1`;
-`init_hess_vec`'s `2N+1` directions): `hessian_seed_table_N` for `N = 1 … 8` by kernel evaluation —
-the general-`N` statement of the triangular index arithmetic is not proved (partial).  `init_tensor /
+`init_hess_vec`'s `2N+1` directions): `hessian_seed_table_all`, `hess_vec_seed_table_all` for **every** `N`
+(and every `v`); the instances `N = 1 … 8` are also evaluated by the kernel.  `init_tensor /
 extract_tensor` rest on the Γ identity of C15.
 
 That `c₂` along `x + t v` of a *program* is `½ vᵀ∇²f v` is the composition of the per-operation Taylor
@@ -30,6 +31,21 @@ theorem hessian_offdiagonal (H : Fin N → Fin N → K) (hH : ∀ i j, H i j = H
 
 theorem hess_vec_entry (H : Fin N → Fin N → K) (hH : ∀ i j, H i j = H j i) (v : Fin N → K) (n : Fin N) :
     -quad H (Pi.single n 1) + quad H (v + Pi.single n 1) - quad H v = ∑ j, H n j * v j := quad_hess_vec H hH v n
+
+/-- `init_hessian`'s direction table for every `N`: `N(N+1)/2` directions, `e_n` at `a(n)`, `e_n + e_m` at `k(n,m)` -/
+theorem hessian_seed_table_all (N : ℕ) :
+    (hessDirs (K := ℚ) N).length = N * (N + 1) / 2
+    ∧ (∀ n, n < N → (hessDirs (K := ℚ) N).getD (hessA n) [] = unitVec N n)
+    ∧ (∀ n m, n < N → m < n → (hessDirs (K := ℚ) N).getD (hessK n m) [] = addS (unitVec N n) (unitVec N m)) :=
+  hessDirs_table N
+
+/-- `init_hess_vec`'s direction table for every `N` and `v` -/
+theorem hess_vec_seed_table_all (N : ℕ) (v : List ℚ) (hv : v.length = N) :
+    (hessVecDirs N v).length = 2 * N + 1
+    ∧ (hessVecDirs N v).getD (2 * N) [] = v
+    ∧ (∀ n, n < N → (hessVecDirs N v).getD n [] = unitVec N n)
+    ∧ (∀ n, n < N → (hessVecDirs N v).getD (n + N) [] = addS v (unitVec N n)) :=
+  hessVecDirs_table N v hv
 
 theorem hessian_seed_table_1 : hessTableOK 1 = true := by decide +kernel
 theorem hessian_seed_table_2 : hessTableOK 2 = true := by decide +kernel
